@@ -5,6 +5,7 @@ import A2lVerif.Model.IfData
 import A2lVerif.Driver.Lex
 import A2lVerif.Gen.Symbols
 import A2lVerif.Gen.Shipped
+import A2lVerif.Gen.Fresh
 /-! line-protocol front end for the element parser / writer model:
     `a2l <strict 0|1> <hex text> <tokens k:s:e:l,...|-> <floats hex=hex,...|->`
     answer: `ok;log=Kind@line,...;text=<hex of the written file>` | `err Kind@line` | `PANIC` | `FUEL` -/
@@ -56,7 +57,7 @@ def f32Of (fl : Std.HashMap String String) (text : List Char) : Option (List Cha
 def showLog (log : List Diag) : String :=
   ",".intercalate (log.reverse.map fun d => s!"{d.kind.name}@{d.line}")
 
-def handle (args : List String) : String :=
+def handleWith (table : Table) (code : List CodeEntry) (args : List String) : String :=
   match args with
   | [strict, hextext, toks, floats] =>
     match hexDecode hextext with
@@ -85,7 +86,7 @@ def handle (args : List String) : String :=
           { ty := k, text := text.toList, line := l, fileid := 0, sym := if k == 0 then symOf text else noSym,
             fl := if k == 5 then (fl.get? text).map String.toList else none }
         if ptoks.isEmpty then "err EmptyFile" else
-        let env : Env := { toks := ptoks, strict := strict == "1", table := Shipped.table, code := Shipped.code,
+        let env : Env := { toks := ptoks, strict := strict == "1", table := table, code := code,
                            known := known, symbols := symbols,
                            special := IfData.special tyA2ml (f32Of fl) [],
                            specialWrite := IfData.specialWrite tyA2ml }
@@ -97,5 +98,11 @@ def handle (args : List String) : String :=
           let text := writeFile env v (4 * ptoks.size + 64)
           s!"ok;log={showLog s.log};text={hexEncode (String.ofList text).toUTF8.toList}"
   | _ => "bad-request"
+
+/-- the model instantiated with the table extracted from the shipped `specification.rs` -/
+def handle (args : List String) : String := handleWith Shipped.table Shipped.code args
+
+/-- the model instantiated with the table extracted from the fresh expansion of the DSL by the in-tree macro (C20) -/
+def handleFresh (args : List String) : String := handleWith Fresh.table Fresh.code args
 
 end A2l.Tree
